@@ -16,6 +16,7 @@ CONSTANTS
  Probes = FALSE
  Exts = {TRUE, FALSE}
  KeepSlots = FALSE
+ TarUnverified = FALSE
 INIT Init
 NEXT Next
 VIEW View
